@@ -57,10 +57,11 @@ def impl_batch(case):
             res = {}
             P, vals, k = it["P"], it["vals"], it["k"]
             for rule in it["rules"]:
-                a = E.run_rule(rule, P, vals, k)
+                kw = dict(el_zero=it.get("el_zero", True), share=it.get("share", False), history=it.get("history"))
+                a = E.run_rule(rule, P, vals, k, **kw)
                 asked = set((q[0], q[1]) for q in a["log"])
-                b = E.run_rule(rule, P, scramble(vals, asked, it["salt"]), k)
-                nm = E.run_rule(rule, P, vals, k, memoize=False)
+                b = E.run_rule(rule, P, scramble(vals, asked, it["salt"]), k, **kw)
+                nm = E.run_rule(rule, P, vals, k, memoize=False, el_zero=it.get("el_zero", True))
                 res[rule] = {"a": a, "b": b, "nomemo_count": nm["count"], "nomemo_log_len": len(nm["log"])}
             if "dtsf" in it:
                 d = it["dtsf"]
@@ -134,8 +135,9 @@ def judge(R, it, res, lean):
             return
         # (3) budgets per agent
         per = {i: set() for i in range(n)}
-        for ag, alt in a["log"]:
+        for ag, alt in a["log"][a.get("pre_history", 0):]:
             per[ag].add(alt)
+        pre_q = set(map(tuple, a["log"][:a.get("pre_history", 0)]))
         for i in range(n):
             cnt = len(per[i])
             if rule in ("karv", "tsf"):
@@ -143,7 +145,9 @@ def judge(R, it, res, lean):
                 bad = cnt > bound
             elif rule == "prv":
                 bound = k
-                bad = cnt != k
+                npre_i = len(set(q[1] for q in pre_q if q[0] == i))
+                # questions already answered before the rule ran are served from the memo: exactly k in total
+                bad = cnt > k or cnt + npre_i < k
             else:
                 bound = 2
                 bad = cnt > 2
@@ -153,6 +157,8 @@ def judge(R, it, res, lean):
                 return
             # (4) correspondence: the set of asked ranking positions equals the model's
             order = E.ranked(P, i)
+            if any(q[0] == i for q in pre_q):
+                continue        # questions answered before the rule ran are not re-asked: the asked set is then a subset; skip
             pos = sorted(order.index(j) for j in per[i])
             if rule in ("karv", "tsf"):
                 tv = [Fraction(vals[i][j]) for j in order]
@@ -311,7 +317,10 @@ def gen_items(R, count):
         n = m if square else R.rng.randint(1, 5)
         P = V.rand_profile(R.rng, n, m)
         vals = E.gen_near_threshold(R.rng, P, m, k) if kind == "near_threshold" else E.gen_vals(R.rng, P, m, kind)
-        it = {"P": P, "vals": vals, "k": k, "rules": ["karv", "prv"] + (["tsf", "m2q"] if square else []), "kind": kind, "salt": R.rng.randrange(10 ** 6)}
+        it = {"P": P, "vals": vals, "k": k, "rules": ["karv", "prv"] + (["tsf", "m2q"] if square else []), "kind": kind, "salt": R.rng.randrange(10 ** 6),
+              "el_zero": R.rng.random() < 0.6, "share": R.rng.random() < 0.5}
+        if R.rng.random() < 0.3:
+            it["history"] = [[R.rng.randrange(n), R.rng.randrange(m)] for _ in range(R.rng.randint(1, 4))]
         if square and m <= 7 and R.rng.random() < 0.5:
             P2 = V.rand_profile(R.rng, m, m)
             it["dtsf"] = {"P1": P, "P2": P2, "V1": S.vals_agreeing(R.rng, P, 0, 9), "V2": S.vals_agreeing(R.rng, P2, 0, 9),
